@@ -1,7 +1,7 @@
 """C20 — a stored remote handle has a stable, type-independent encoding."""
 import json
 
-ADDRS = ["", "a", "cosmwasm1xyz", "with space", "quote\"in", "back\\slash", "unié中", "\t\n", "{\"addr\":\"x\"}", "null", "x" * 4096,
+ADDRS = ["", "a", "Owner", "COSMWASM1ABCDEF", "MiXeD1Case", "cosmwasm1xyz", "with space", "quote\"in", "back\\slash", "unié中", "\t\n", "{\"addr\":\"x\"}", "null", "x" * 4096,
          "\u0000", "/", " ", "emoji\U0001F600", "'"]
 
 
@@ -38,7 +38,7 @@ def check_prog(ctx, r, prog, n_rand):
     targets = ["c"] + [p["id"] for p in prog["parts"][1:]]
     addrs = list(ADDRS)
     for _ in range(n_rand):
-        addrs.append("".join(rng.choice("abc019\"\\ {}:é\n") for _ in range(rng.randrange(0, 40))))
+        addrs.append("".join(rng.choice("abcXYZ019\"\\ {}:éÜ\n") for _ in range(rng.randrange(0, 40))))
     schemas = {}
     for t in targets:
         cmds = []
@@ -70,6 +70,16 @@ def check_prog(ctx, r, prog, n_rand):
                 ctx.nontrivial([t if t == "c" else "dyn", a])
             if len(ctx.samples) < 4 and ("\"" in a or "\\" in a):
                 ctx.sample({"program": pn, "type_param": t, "address": a, "encoded": v["owned"], "decoded_back": dec})
+    # one schema document holding handles to the contract and to every interface: a single `Remote` definition
+    o = r.call({"prog": pn, "op": "remote_doc"})
+    ctx.ev()
+    defs = sorted(k for k in (o["res"]["ok"]["root"].get("definitions") or {}) if k.startswith("Remote"))
+    if len(targets) > 1:
+        if defs != ["Remote"]:
+            ctx.violate("schema-definitions-per-type", f"{pn}: a document with Remote<{'>, Remote<'.join(targets)}> has definitions {defs} instead of one `Remote`",
+                        {"prog": pn, "definitions": defs})
+        else:
+            ctx.nontrivial([pn, "remote_doc", len(targets)])
     base = schemas.get("c")
     for t, s in schemas.items():
         if s != base:
